@@ -832,5 +832,159 @@ theorem simulate_fault_cases {p : Proc N} (prog : List (Instr N)) (hwf : wfProc 
 
 end term
 
+/-! ## 6. Tracing the fill phase: either nothing happened, or some entry is there that did not stay -/
+
+section trace
+omit [LT N] [DecidableRel (α := N) (· < ·)]
+
+/-- an entry that did not simply stay in its unit: it moved in (from a unit of smaller position) or was issued -/
+def NonStay (p : Proc N) (old : Util N) (e : Nat) (n : N) (x : HI) : Prop :=
+  (x.st = .U ∧ ∃ m y, y ∈ old.get m ∧ y.idx = x.idx ∧ y.st ≠ .D ∧ upos p m < upos p n) ∨
+  (x.st = .U ∧ e ≤ x.idx)
+
+/-- some entry of `u` did not simply stay -/
+def Bad (p : Proc N) (old : Util N) (e : Nat) (u : Util N) : Prop := ∃ n x, x ∈ u.get n ∧ NonStay p old e n x
+
+/-- a taken candidate is appended to the destination, as an entry that did not stay -/
+theorem fillUnit_appended {p : Proc N} (hord : orderOK p = true) {prog : List (Instr N)} {old : Util N} {e : Nat}
+    {d : FuncU N} (hd : d ∈ p.dests) {u : Util N} {mem : Bool}
+    (hO : ∀ n x, x ∈ u.get n → Origin p old e n x) {c : N × Nat} (hc : c ∈ unitTaken prog d u mem) :
+    (⟨c.2, .U⟩ : HI) ∈ (fillUnit prog d u mem).1.get d.model.name ∧ NonStay p old e d.model.name ⟨c.2, .U⟩ := by
+  constructor
+  · rw [fillUnit_get_self prog d u mem (orderOK_self_not_pred hord hd)]
+    exact List.mem_append_right _ (List.mem_map.2 ⟨c, hc, rfl⟩)
+  · obtain ⟨hpred, z, hz, hv, hzi⟩ := mem_unitTaken hc
+    have hpos := upos_lt_of_pred hord hd hpred
+    have hzD : z.st ≠ .D := by
+      intro e0
+      simp [validCand, e0] at hv
+    rcases hO c.1 z hz with h1 | ⟨_, m, y, hy, hyi, hyD, hlt⟩ | ⟨_, h3⟩
+    · exact Or.inl ⟨rfl, c.1, z, h1, hzi, hzD, hpos⟩
+    · exact Or.inl ⟨rfl, m, y, hy, hyi.trans hzi, hyD, Nat.lt_trans hlt hpos⟩
+    · exact Or.inr ⟨rfl, by rw [← hzi]; exact h3⟩
+
+theorem fillUnit_origin {p : Proc N} (hord : orderOK p = true) {prog : List (Instr N)} {old : Util N} {e : Nat}
+    {d : FuncU N} (hd : d ∈ p.dests) {u : Util N} {mem : Bool}
+    (hO : ∀ n x, x ∈ u.get n → Origin p old e n x) :
+    ∀ n x, x ∈ (fillUnit prog d u mem).1.get n → Origin p old e n x := by
+  intro n x hx
+  have hs := (fillUnit_get_sublist prog d u mem n).subset hx
+  by_cases hdn : d.model.name = n
+  · rw [if_pos hdn, List.mem_append] at hs
+    rcases hs with hs | hs
+    · exact hO n x hs
+    · obtain ⟨c, hc, rfl⟩ := List.mem_map.1 hs
+      rw [← hdn]
+      exact Or.inr (fillUnit_appended hord hd hO hc).2
+  · rw [if_neg hdn] at hs; exact hO n x hs
+
+theorem fillUnit_bad {p : Proc N} (hord : orderOK p = true) {prog : List (Instr N)} {old : Util N} {e : Nat}
+    {d : FuncU N} (hd : d ∈ p.dests) {u : Util N} {mem : Bool}
+    (hO : ∀ n x, x ∈ u.get n → Origin p old e n x) (hb : Bad p old e u) : Bad p old e (fillUnit prog d u mem).1 := by
+  obtain ⟨n, x, hx, hns⟩ := hb
+  cases ht : (unitTaken prog d u mem).any (fun m => m.1 == n && m.2 == x.idx) with
+  | true =>
+    obtain ⟨c, hc, hcn⟩ := List.any_eq_true.1 ht
+    simp only [Bool.and_eq_true, beq_iff_eq] at hcn
+    have := fillUnit_appended hord hd hO hc
+    exact ⟨d.model.name, _, this.1, this.2⟩
+  | false =>
+    refine ⟨n, x, ?_, hns⟩
+    rw [fillUnit_get, List.mem_filter]
+    refine ⟨?_, by simp [ht]⟩
+    split
+    · exact List.mem_append_left _ hx
+    · exact hx
+
+theorem fillUnit_get_of_taken_nil (prog : List (Instr N)) (d : FuncU N) (u : Util N) (mem : Bool)
+    (h : unitTaken prog d u mem = []) (n : N) : (fillUnit prog d u mem).1.get n = u.get n := by
+  rw [fillUnit_get, h]
+  simp
+
+theorem fillUnit_snd_of_taken_nil (prog : List (Instr N)) (d : FuncU N) (u : Util N) (mem : Bool)
+    (h : unitTaken prog d u mem = []) : (fillUnit prog d u mem).2 = mem := by
+  rw [fillUnit_snd, h]; simp
+
+theorem unitTaken_congr (prog : List (Instr N)) (d : FuncU N) {u u' : Util N} (mem : Bool)
+    (h : ∀ n, u.get n = u'.get n) : unitTaken prog d u mem = unitTaken prog d u' mem := by
+  unfold unitTaken candidates candsOf
+  simp only [h]
+
+theorem fillDests_cons' (prog : List (Instr N)) (d : FuncU N) (ds : List (FuncU N)) (u : Util N) (mem : Bool) :
+    fillDests prog (d :: ds) u mem = fillDests prog ds (fillUnit prog d u mem).1 (fillUnit prog d u mem).2 := rfl
+
+/-- trace of the moves: origins are kept, a non-staying entry persists, and either there is one at the end or
+nothing happened at all (no destination took anything, the memory flag is unchanged) -/
+theorem fillDests_trace {p : Proc N} (hord : orderOK p = true) (prog : List (Instr N)) (old : Util N) (e : Nat) :
+    ∀ (ds : List (FuncU N)), (∀ d ∈ ds, d ∈ p.dests) → ∀ u mem, (∀ n x, x ∈ u.get n → Origin p old e n x) →
+      (∀ n x, x ∈ (fillDests prog ds u mem).1.get n → Origin p old e n x) ∧
+      (Bad p old e u → Bad p old e (fillDests prog ds u mem).1) ∧
+      (Bad p old e (fillDests prog ds u mem).1 ∨
+        ((∀ n, (fillDests prog ds u mem).1.get n = u.get n) ∧ (fillDests prog ds u mem).2 = mem ∧
+          ∀ d ∈ ds, unitTaken prog d u mem = [])) := by
+  intro ds
+  induction ds with
+  | nil =>
+    intro _ u mem hO
+    exact ⟨hO, fun h => h, Or.inr ⟨fun _ => rfl, rfl, fun _ h => by cases h⟩⟩
+  | cons d ds ih =>
+    intro hds u mem hO
+    have hd := hds d List.mem_cons_self
+    have hO1 := fillUnit_origin (prog := prog) (mem := mem) hord hd hO
+    obtain ⟨i1, i2, i3⟩ := ih (fun d' hd' => hds d' (List.mem_cons_of_mem _ hd')) _ (fillUnit prog d u mem).2 hO1
+    rw [fillDests_cons']
+    refine ⟨i1, fun hb => i2 (fillUnit_bad hord hd hO hb), ?_⟩
+    by_cases ht : unitTaken prog d u mem = []
+    · rcases i3 with hb | ⟨e1, e2, e3⟩
+      · exact Or.inl hb
+      · right
+        have hg := fillUnit_get_of_taken_nil prog d u mem ht
+        have hm := fillUnit_snd_of_taken_nil prog d u mem ht
+        refine ⟨fun n => (e1 n).trans (hg n), e2.trans hm, ?_⟩
+        intro d' hd'
+        rcases List.mem_cons.1 hd' with rfl | hd''
+        · exact ht
+        · have h3 := e3 d' hd''
+          rw [hm, unitTaken_congr prog d' mem hg] at h3
+          exact h3
+    · left
+      obtain ⟨c, hc⟩ := List.exists_mem_of_ne_nil _ ht
+      have := fillUnit_appended hord hd hO hc
+      exact i2 ⟨d.model.name, _, this.1, this.2⟩
+
+/-- trace of the issue loop: every entry persists, and either nothing was issued (then the first instruction offered
+fits no port) or an issued entry is there at the end -/
+theorem issueLoop_trace (p : Proc N) (old : Util N) (e : Nat) (ports : List (UnitM N)) (l : List (Instr N))
+    (u : Util N) (mem : Bool) (e0 : Nat) (he : e ≤ e0) :
+    (∀ n x, x ∈ u.get n → x ∈ (issueLoop ports l u mem e0).1.get n) ∧
+    ((issueLoop ports l u mem e0 = (u, e0) ∧ ∀ ins rest, l = ins :: rest → tryPorts ins.cap e0 ports u mem = none) ∨
+      Bad p old e (issueLoop ports l u mem e0).1) := by
+  have pers : ∀ (l : List (Instr N)) (u : Util N) (mem : Bool) (e0 : Nat) n x, x ∈ u.get n →
+      x ∈ (issueLoop ports l u mem e0).1.get n := by
+    intro l u mem e0 n x hx
+    obtain ⟨l', h1, _⟩ := issueLoop_get_prefix ports l u mem e0 n
+    rw [h1]; exact List.mem_append_left _ hx
+  refine ⟨pers l u mem e0, ?_⟩
+  cases l with
+  | nil => exact Or.inl ⟨rfl, fun _ _ h => by cases h⟩
+  | cons ins rest =>
+    cases ht : tryPorts ins.cap e0 ports u mem with
+    | none =>
+      left
+      refine ⟨by simp [issueLoop, ht], ?_⟩
+      intro ins' rest' h
+      injection h with h1 _
+      rw [← h1]; exact ht
+    | some r =>
+      right
+      obtain ⟨pre, port, post, _, _, _, rfl⟩ := tryPorts_eq_some ht
+      have hmem : (⟨e0, .U⟩ : HI) ∈ (u.set port.name (u.get port.name ++ [⟨e0, .U⟩])).get port.name := by
+        rw [Util.get_set_eq]; simp
+      have := pers rest _ (mem || decide (ins.cap ∈ port.acl)) (e0 + 1) port.name _ hmem
+      refine ⟨port.name, ⟨e0, .U⟩, ?_, Or.inr ⟨rfl, he⟩⟩
+      simpa [issueLoop, ht] using this
+
+end trace
+
 end Term
 end ProcSim
